@@ -158,7 +158,7 @@ def run(ctx):
         else:
             po |= {o[1] for o in du.origins(txt, stop_at_calls=False) if o[0] == 'call'}
     has_min = any(k.endswith('Iterator>::min') for k in po)
-    cl_min = any(P.call_sites(c, lambda k, t: k.endswith('Ord>::min')) and P.call_sites(c, 'Storage::get_min_filtered_block_number') for c in P.closures_of(F))
+    cl_min = any(P.call_sites(c, lambda k, t: k == 'Ord::min') and P.call_sites(c, 'Storage::get_min_filtered_block_number') for c in P.closures_of(F))
     ctx.ob('C09.r2', F.name, 'partial command rewinds to min(given block numbers, current progress)', bool(parts) and has_min and cl_min,
            origins=sorted(po)[:8])
     # the rewind value reaches update_min_filtered_block_number
@@ -176,7 +176,7 @@ def run(ctx):
     bounded = False
     for t, val in writes:
         for o in du.origins(val, stop_at_calls=False):
-            if o[0] == 'call' and o[1] == '<u64 as Ord>::min':
+            if o[0] == 'call' and o[1] == 'Ord::min':
                 mt = F.blocks[o[2]].term
                 for a in mt.args:
                     oa = du.origins(a)
